@@ -439,13 +439,13 @@ Definition pex_del (st : pexst) (p : peer) : pexst :=
       {| px_pending := px_pending st; px_pending_del := px_pending_del st; px_sent := sent' |}
     else {| px_pending := px_pending st; px_pending_del := px_pending_del st ++ [p]; px_sent := sent' |}.
 
+Definition is_nil {A} (l : list A) : bool := match l with [] => true | _ => false end.
+
 Definition send_pex (a : acc) : acc :=
   let s := a_st a in
   if (s_pex_ext s =? 0) || congested s then a else
   let st := s_pexst s in
-  match px_pending st, px_pending_del st with
-  | [], [] => a
-  | _, _ =>
+  if is_nil (px_pending st) && is_nil (px_pending_del st) then a else
     let tosend := firstn 50 (px_pending st) in
     let todel := firstn 50 (px_pending_del st) in
     let (a', e) := write a (ExtendedPex (s_pex_ext s) tosend todel) in
@@ -456,8 +456,7 @@ Definition send_pex (a : acc) : acc :=
         {| px_pending := skipn 50 (px_pending st); px_pending_del := skipn 50 (px_pending_del st);
            px_sent := px_sent st ++ tosend |})
     | _ => a'   (* delta re-queued: state unchanged *)
-    end
-  end.
+    end.
 
 (* ---------- events from the torrent (handleEvent) ---------- *)
 
